@@ -133,7 +133,12 @@ def history(rng, sid, table, n=40, malformed=False, cfg=None, with_file=None):
             elif form < 0.7:
                 s.cmd(c, "AUTH", pw)
             elif form < 0.9:
-                s.cmd(c, "HELLO", rng.choice(["2", "3", "3", "x", "4"]), "AUTH", user, pw, *(["SETNAME", "nm"] if rng.random() < 0.3 else []))
+                pv = rng.choice(["2", "3", "3", "x", "4"])
+                o = rng.random()      # every order of the two options the grammar admits (4, 5 and 7 words)
+                if o < 0.45: s.cmd(c, "HELLO", pv, "AUTH", user, pw)
+                elif o < 0.65: s.cmd(c, "HELLO", pv, "AUTH", user, pw, "SETNAME", "nm")
+                elif o < 0.9: s.cmd(c, "HELLO", pv, rng.choice(["SETNAME", "setname"]), "nm", rng.choice(["AUTH", "auth"]), user, pw)
+                else: s.cmd(c, "HELLO", pv, "SETNAME", "nm")
             else:
                 s.cmd(c, *rng.choice([["AUTH"], ["AUTH", "a", "b", "c"], ["HELLO", "3", "AUTH", user], ["HELLO", "3", "SETNAME"], ["HELLO", "3", "FOO", "x"]]))
             U(s)
@@ -184,6 +189,9 @@ FILE_USERS = [
     lambda: file_user("u3", nokeys=True, rk=[], wk=[], pws=[("plaintext", "pw2")], ip=["c*"], xp=["cx"]),
     lambda: file_user("default", nopass=False, pws=[("plaintext", ROOT_PW)], ic=["*", "read"]),
     lambda: file_user("u2", pws=[("plaintext", "pw1"), ("plaintext", "pw1")], ic=["allCategories"], im=["allCommands"], rk=["allKeys", "a*"]),
+    # a default user in the file is taken as it stands, whatever the server's requirepass / password settings say
+    lambda: file_user("default", nopass=True),
+    lambda: file_user("default", nopass=False, pws=[("plaintext", "pw2")], ic=["*"]),
     # a hand-written file may flag a user nokeys and still list patterns (SETUSER never produces that): nokeys wins
     lambda: file_user("u1", nokeys=True, pws=[("plaintext", "pw1")], rk=["a*"], wk=["*"]),
     lambda: file_user("u2", nopass=True, nokeys=True, rk=["*"], wk=["b*"]),
